@@ -520,6 +520,13 @@ func (e *Env) cliTexts(repoCopy string, r *simrt.SplitMix64, n int) []cliText {
 		// twice; C15's business): whatever happens, exit status 0 requires a
 		// complete parser in the destination
 		cliText{"invalid", "duprule", hdr + "S <- 'a' A\nA <- 'b'\nA <- 'c'\n"},
+		// boundary texts: one physical line far beyond 64 KiB (a comment, a
+		// machine-written alternation), CRLF line ends, no final newline
+		cliText{"valid", "longcomment", hdr + "S <- 'a' T\n# " + strings.Repeat("x", 70000) + "\nT <- 'b' U\nU <- 'c'\n"},
+		cliText{"invalid", "longcomment-then-error", hdr + "S <- 'a' T\n# " + strings.Repeat("x", 70000) + "\nT <- ( 'b'\n"},
+		cliText{"valid", "longrule", hdr + "S <- 'a' { _ = \"" + strings.Repeat("y", 70000) + "\" } T\nT <- 'c'\n"},
+		cliText{"valid", "crlf", strings.ReplaceAll(hdr+"S <- 'a' T\nT <- 'b'\n", "\n", "\r\n")},
+		cliText{"valid", "nofinalnewline", hdr + "S <- 'a' T\nT <- 'b' # trailing comment without newline"},
 	)
 	for _, rel := range []string{"peg.peg", "grammars/longtest/long.peg", "grammars/calculator/calculator.peg", "grammars/fexl/fexl.peg", "cmd/peg-bootstrap/bootstrap.peg"} {
 		if b, err := os.ReadFile(filepath.Join(repoCopy, rel)); err == nil {
@@ -561,7 +568,9 @@ func (e *Env) cliScenarios(texts []cliText, r *simrt.SplitMix64, n int) []CliSce
 			}
 		}
 		destIsStd := sc.Dest == "stdout" || (sc.Dest == "default" && (sc.Source == "stdin" || sc.Source == "dash"))
-		if !destIsStd && r.Chance(1, 8) {
+		// -syntax/-print dump the tree of the grammar text itself (quadratic
+		// in its size): small texts only
+		if !destIsStd && len(sc.Text) < 8000 && r.Chance(1, 8) {
 			sc.Opts = append(sc.Opts, []string{"-syntax", "-print"}[r.Intn(2)])
 		}
 		sc.Abs = r.Chance(1, 2)
